@@ -1157,6 +1157,8 @@ def probes(rng, tier):
                                '%s: proximal lands in the set and is idempotent' % code, rp))
     # 1c. matrix-valued functionals on multi-axis base spaces
     out.extend(matrix_probes(rng, tier))
+    # 1d. dtype-dependent defaults: indicator functionals on float32 spaces
+    out.extend(dtype_probes(rng, tier))
     # 2. derived functionals (random trees)
     ntrees = 40 if tier == 'quick' else 300
     made = 0
@@ -1433,6 +1435,45 @@ def matrix_probes(rng, tier):
                     key = 'nuclear-norm-exp-inf-proximal' if fam == 'nuclear-inf' else 'matrix-opt-%s-%s-%s' % (fam, sv, btag)
                     out.append(C.Probe(ok, key, '%s: minimises f(z)+||z-x||^2/(2 sigma)' % fcode,
                                        optimal_replay(fcode, ('scal', sg), x, wz), detail))
+    return out
+
+
+def dtype_probes(rng, tier):
+    """Indicator-type functionals with DEFAULT constructor arguments on float32 spaces: the proximal must land in the
+    functional's own constraint set (f(prox(x)) finite) and be idempotent at float32 accuracy.  Default tolerances
+    (sum_rtol of IndicatorSimplex / IndicatorSumConstraint) depend on the dtype."""
+    out = []
+    reps = 6 if tier == 'quick' else 25
+    spaces = [('rn', "odl.rn(5, dtype='float32')"), ('discr', "odl.uniform_discr(0, 1, 6, dtype='float32')"),
+              ('rn2d', "odl.rn((2, 3), dtype='float32')"), ('discr2d', "odl.uniform_discr([0, 0], [1, 2], [3, 2], dtype='float32')"),
+              ('pow', "odl.ProductSpace(odl.rn(3, dtype='float32'), 2)")]
+    funcs = [('simplex', 'S.IndicatorSimplex(X)'), ('simplex-d3', 'S.IndicatorSimplex(X, 3)'),
+             ('sumc', 'S.IndicatorSumConstraint(X)'), ('sumc-v5', 'S.IndicatorSumConstraint(X, 5)'),
+             ('box', 'S.IndicatorBox(X, -1, 1)'), ('nonneg', 'S.IndicatorNonnegativity(X)'),
+             ('ball1', 'S.IndicatorLpUnitBall(X, 1)'), ('ball2', 'S.IndicatorLpUnitBall(X, 2)'),
+             ('ballinf', 'S.IndicatorLpUnitBall(X, np.inf)'), ('zero', 'S.IndicatorZero(X)'),
+             ('gball2', 'S.IndicatorGroupL1UnitBall(X, 2)'), ('gballinf', 'S.IndicatorGroupL1UnitBall(X, np.inf)')]
+    for tag, scode in spaces:
+        for nm, fcode in funcs:
+            if nm.startswith('gball') and tag != 'pow':
+                continue
+            n = Sp(scode).n
+            xs = [[rng.uniform(-3, 3) for _ in range(n)] for _ in range(reps)]
+            rp = (PROBE_PRELUDE + "X = %s\nf = %s\nbad = []\nfor xf in %r:\n"
+                  "    x = unflatten(X, xf); P = f.proximal(0.5); p = P(x)\n"
+                  "    if not np.isfinite(float(f(p))) or float((P(p) - p).norm()) > 1e-4 * (1 + float(p.norm())):\n"
+                  "        bad.append(xf)\n"
+                  "observed = {'inputs with f(prox(x)) = inf or prox not idempotent': bad}\nok = not bad\n"
+                  % (scode, fcode, xs))
+            e2 = {}
+            try:
+                exec(rp, e2)
+                ok, detail = bool(e2['ok']), None
+            except Exception as e:   # noqa
+                ok, detail = False, 'raised %s: %s' % (type(e).__name__, str(e)[:100])
+            key = 'indicator-l1-ball-rounding-outside' if nm == 'ball1' else 'float32-feasible-%s-%s' % (nm, tag)
+            out.append(C.Probe(ok, key, '%s on %s: f(prox(x)) finite and prox idempotent (float32, default arguments)'
+                               % (fcode, scode), rp, detail))
     return out
 
 
